@@ -221,6 +221,8 @@ func compare(orig *profile.Profile, got *profile.Profile, want []outcome, origVa
 	return ""
 }
 
+var tracesIDRx = regexp.MustCompile(`(?m)^\s+id:\s+(\d+)\s*$`)
+
 func runNames(c *harness.Ctx) harness.Result {
 	r := c.Rng
 	p := genProfile(r)
@@ -230,6 +232,7 @@ func runNames(c *harness.Ctx) harness.Result {
 	ss, show := pick(r, 4)
 	sfs, showFrom := pick(r, 4)
 	viaDriver := r.Intn(2) == 0
+	viaTraces := viaDriver && r.Intn(3) == 0 // an aggregating text report instead of -proto
 	if focus == nil && ignore == nil && hide == nil && show == nil && showFrom == nil {
 		fs, focus = namePats[0], regexp.MustCompile(namePats[0])
 	}
@@ -253,6 +256,41 @@ func runNames(c *harness.Ctx) harness.Result {
 	res := harness.Result{NonTrivial: len(p.Sample) > und, Sig: desc + fmt.Sprint(len(p.Sample), und), Sample: map[string]any{"filters": desc, "first_sample": fstr(fview(p.Sample[0]))}}
 	before := p.String()
 	var got *profile.Profile
+	if viaTraces {
+		// pprof -traces at the default granularity (functions): the filters must see the frames
+		// as they are in the profile (files, inlined frames), not as the report aggregates them.
+		// The samples that survive are identified by their id label.
+		gran := []string{"functions", "files", "lines", "filefunctions"}[r.Intn(4)]
+		desc += " via -traces " + gran
+		out, ui, rr := drv.Report(map[string]*profile.Profile{"p": p}, []string{"p"}, map[string]bool{"traces": true, gran: true, "relative_percentages": r.Intn(2) == 0, "noinlines": r.Intn(3) == 0},
+			map[string]string{"focus": fs, "ignore": is, "hide": hs, "show": ss, "show_from": sfs}, nil, nil, nil)
+		if rr.Panic != "" {
+			return harness.Violation("%s: panic %s", desc, rr.Panic)
+		}
+		if rr.Err != nil {
+			return harness.Violation("%s: pprof -traces failed: %v (%v)\n%s", desc, rr.Err, ui.Errs, before)
+		}
+		c.Stat("traces_runs", 1)
+		seen := map[int]bool{}
+		for _, m := range tracesIDRx.FindAllStringSubmatch(out, -1) {
+			id, _ := strconv.Atoi(m[1])
+			seen[id] = true
+		}
+		for id, w := range want {
+			if w.undecided {
+				continue
+			}
+			if w.keep && len(w.frames) > 0 && !seen[id] {
+				res.Verdict, res.Detail = harness.Violated, fmt.Sprintf("%s: sample %d should have been kept (frames %s) but is not in the -traces output\n%s\nprofile:\n%s", desc, id, fstr(w.frames), harness.Trunc(out, 1500), harness.Trunc(before, 2500))
+				return res
+			}
+			if !w.keep && seen[id] {
+				res.Verdict, res.Detail = harness.Violated, fmt.Sprintf("%s: sample %d should have been dropped but is in the -traces output\n%s\nprofile:\n%s", desc, id, harness.Trunc(out, 1500), harness.Trunc(before, 2500))
+				return res
+			}
+		}
+		return res
+	}
 	if viaDriver {
 		out, ui, rr := drv.Report(map[string]*profile.Profile{"p": p}, []string{"p"}, map[string]bool{"proto": true, "relative_percentages": r.Intn(2) == 0},
 			map[string]string{"focus": fs, "ignore": is, "hide": hs, "show": ss, "show_from": sfs}, nil, nil, nil)
@@ -773,7 +811,7 @@ func init() {
 	harness.Register(&harness.Check{
 		ID:    "C06",
 		Level: "exploration",
-		Rule: "part names: profiles over small name/file/binary alphabets with shared and inlined locations, unsymbolized frames and empty stacks, function and location ids distinct but neither dense nor ordered (values just above the table size included); every sample carries a unique id label so outcomes are matched per sample; random focus/ignore/hide/show/show_from expressions (12 patterns: literals, alternation, anchors, classes, path fragments), alone and combined, through the API (FilterSamplesByName + ShowFrom) and through the driver (-proto with the options, relative_percentages on/off). part interactive: 'proto F.. -I.. > file' typed into a fresh interactive session (1-4 focus words and -ignore words in any order) must filter like focus=F1|F2 ignore=I1|I2, and an argument-free command after it must see every sample again. part partition: focus=R plus ignore=R must contain every sample exactly once and totals must add up (also on -top totals). part tags: string labels and numeric labels in bytes/kb, ms/us, unitless and key-inferred units against regexp lists (AND without key, OR with key) and ranges N, N:, :N, N:M with unit conversion, optionally keyed, plus tagshow/taghide, through the driver. " +
+		Rule: "part names: profiles over small name/file/binary alphabets with shared and inlined locations, unsymbolized frames and empty stacks, function and location ids distinct but neither dense nor ordered (values just above the table size included); every sample carries a unique id label so outcomes are matched per sample; random focus/ignore/hide/show/show_from expressions (12 patterns: literals, alternation, anchors, classes, path fragments), alone and combined, through the API (FilterSamplesByName + ShowFrom) and through the driver (-proto with the options, relative_percentages on/off; and -traces at functions/files/lines/filefunctions granularity with and without noinlines, where the set of surviving samples is read from their id labels). part interactive: 'proto F.. -I.. > file' typed into a fresh interactive session (1-4 focus words and -ignore words in any order) must filter like focus=F1|F2 ignore=I1|I2, and an argument-free command after it must see every sample again. part partition: focus=R plus ignore=R must contain every sample exactly once and totals must add up (also on -top totals). part tags: string labels and numeric labels in bytes/kb, ms/us, unitless and key-inferred units against regexp lists (AND without key, OR with key) and ranges N, N:, :N, N:M with unit conversion, optionally keyed, plus tagshow/taghide, through the driver. " +
 			"oracle: reference filter written from doc/README.md over the frames view; values, labels and frame order must be retained. non-trivial = at least one decided sample / a tag filter present; distinct = (filters, sample counts)",
 		Assumptions: []string{"undecided by the statement and accepted either way: empty-stack samples under hide/show, unsymbolized frames under show", "numeric label units are consistent per key within a profile", "a unitless range compares raw values of labels without a known unit"},
 		Parts: []harness.Part{
